@@ -45,7 +45,8 @@ type StreamClient struct {
 	Opens      []OpenCall
 	Closes     []uint16
 	Observers  map[uint16]couchbase.Observer
-	OpenCh     chan uint16 // signalled on every OpenStream call
+	OpenCh     chan uint16     // signalled on every OpenStream call
+	OnOpen     func(vb uint16) // called synchronously at the start of every OpenStream call
 	NumVb      int
 	snap       *gocbcore.ConfigSnapshot
 }
@@ -85,6 +86,9 @@ func (c *StreamClient) GetCollectionIDs(string, []string) (map[uint32]string, er
 	return map[uint32]string{}, nil
 }
 func (c *StreamClient) OpenStream(vb uint16, _ map[uint32]string, o *models.Offset, ob couchbase.Observer) error {
+	if c.OnOpen != nil {
+		c.OnOpen(vb)
+	}
 	c.mu.Lock()
 	call := OpenCall{VbID: vb, Offset: *o, Observer: ob}
 	if o.SnapshotMarker != nil {
@@ -111,6 +115,16 @@ func (c *StreamClient) CloseStream(vb uint16) error {
 	c.mu.Unlock()
 	return nil
 }
+func (c *StreamClient) SetOpenErr(vb uint16, err error) {
+	c.mu.Lock()
+	defer c.mu.Unlock()
+	if err == nil {
+		delete(c.OpenErr, vb)
+	} else {
+		c.OpenErr[vb] = err
+	}
+}
+
 func (c *StreamClient) TakeOpens() []OpenCall {
 	c.mu.Lock()
 	defer c.mu.Unlock()
@@ -142,14 +156,15 @@ type SaveCall struct {
 // Store is a durable per-vBucket document store with a gate in Save, behaving like the Couchbase
 // backend: only dirty documents are written, a vBucket without a document loads as the empty document.
 type Store struct {
-	mu      sync.Mutex
-	Docs    map[uint16]models.CheckpointDocument
-	Entered chan *SaveCall // a Save call arrived (and is now blocked)
-	release chan error
-	cur     *SaveCall
-	LoadErr error
-	Saves   int
-	Gate    bool // block in Save until Release
+	mu       sync.Mutex
+	Docs     map[uint16]models.CheckpointDocument
+	Entered  chan *SaveCall // a Save call arrived (and is now blocked)
+	release  chan error
+	cur      *SaveCall
+	LoadErr  error
+	Saves    int
+	Gate     bool // block in Save until Release
+	FileLike bool // Load behaves like the file backend with an existing file: only the stored documents, exist = true
 }
 
 func NewStore() *Store {
@@ -254,6 +269,13 @@ func (s *Store) Load(vbIds []uint16, bucketUUID string) (*wrapper.ConcurrentSwis
 	}
 	m := wrapper.CreateConcurrentSwissMap[uint16, *models.CheckpointDocument](64)
 	exist := false
+	if s.FileLike {
+		for vb, d := range s.Docs {
+			dd := copyDoc(&d)
+			m.Store(vb, &dd)
+		}
+		return m, true, nil
+	}
 	for _, vb := range vbIds {
 		if d, ok := s.Docs[vb]; ok {
 			dd := copyDoc(&d)
